@@ -76,20 +76,27 @@ def check(run):
     run.tlc_negctl("Layer", "Layer_mc.cfg", dict(small, TrackFiles="TRUE", CloseFiles="FALSE"), ["NoOpenFilesAfterClose"], drop=INTERNAL)
 
     # ---------------------------------------------------------------- R
-    gens = [("one", {"NH": "2", "MaxR": "2", "MaxFault": "1"}),
-            ("two", {"Names": AB, "NH": "2", "MaxR": "2", "MaxFault": "0"})]
+    # (name, overrides of Layer_gen.cfg, walks: None = cover every edge, n = a sample of n covering walks)
+    gens = [("one", {"NH": "2", "MaxR": "2", "MaxFault": "1"}, None),
+            ("extras", {"NH": "2", "MaxR": "2", "MaxFault": "0", "Extras": "TRUE"}, None),
+            ("two", {"Names": AB, "NH": "2", "MaxR": "2", "MaxFault": "0"}, 60)]
     if thorough:
-        gens = [("one3", {"NH": "2", "MaxR": "3", "MaxFault": "1"}),
-                ("one2f", {"NH": "2", "MaxR": "2", "MaxFault": "2"}),
-                ("three", {"NH": "3", "MaxR": "2", "MaxFault": "1"}),
-                ("two", {"Names": AB, "NH": "2", "MaxR": "2", "MaxFault": "1"})]
+        gens = [("one3", {"NH": "2", "MaxR": "3", "MaxFault": "1"}, None),
+                ("one2f", {"NH": "2", "MaxR": "2", "MaxFault": "2"}, None),
+                ("three", {"NH": "3", "MaxR": "3", "MaxFault": "0"}, None),
+                ("extras", {"NH": "2", "MaxR": "2", "MaxFault": "1", "Extras": "TRUE"}, None),
+                ("two", {"Names": AB, "NH": "2", "MaxR": "2", "MaxFault": "0"}, None)]
     jobs = []
     exhaustive = True
-    for name, ov in gens:
+    for name, ov, sample in gens:
         inits, edges = run.tlc_edges("LayerGen", "Layer_gen.cfg", ov, timeout=2400)
-        walks, st = edge_cover(inits, edges, maxlen=45, rng=run.rng, extra_walks=150 if thorough else 25)
+        walks, st = edge_cover(inits, edges, maxlen=45, rng=run.rng, extra_walks=(100 if thorough else 15) if sample is None else 0,
+                               max_walks=sample)
         log("[walks] %s: %s" % (name, st))
-        exhaustive = exhaustive and st["covered"] == st["edges"]
+        if sample is None:
+            exhaustive = exhaustive and st["covered"] == st["edges"]
+        else:
+            st["sampled"] = True
         out = os.path.join(run.scratch, "replay_%s.ndjson" % name)
         jobs.append({"name": name, "ov": ov, "names": names_of(ov), "nh": int(ov["NH"]), "out": out,
                      "walks": [[{k: s[k] for k in ("act", "h", "n", "arg")} for s in w] for w in walks]})
